@@ -235,6 +235,9 @@ class NonBondEngine():
         """
         for mol_idx, molecule in enumerate(molecules):
             for node in molecule.nodes:
+                # molecules that are ignored are not part of the engine
+                if (mol_idx, node) not in self.nodes_to_gndx:
+                    continue
                 gndx = self.nodes_to_gndx[(mol_idx, node)]
                 molecule.nodes[node]["position"] = self.positions[gndx]
 
@@ -362,10 +365,15 @@ class NonBondEngine():
         # in position matrix
         nodes_to_gndx = {}
 
+        # molecules are addressed by their index in the topology, also
+        # when only a selection of the molecules is part of the engine
+        topology_idxs = {id(molecule): mol_idx for mol_idx, molecule
+                         in enumerate(topology.molecules)}
+
         atom_types = []
         idx = 0
-        mol_count = 0
-        for molecule in molecules:
+        for mol_count, molecule in enumerate(molecules):
+            mol_count = topology_idxs.get(id(molecule), mol_count)
             for node in molecule.nodes:
                 if "position" in molecule.nodes[node]:
                     # check if position is inside grid
@@ -392,8 +400,6 @@ class NonBondEngine():
                 atom_types.append(resname)
                 nodes_to_gndx[(mol_count, node)] = idx
                 idx += 1
-
-            mol_count += 1
 
         inter_matrix = {}
         for res_a, res_b in itertools.combinations(set(atom_types), r=2):
